@@ -79,11 +79,11 @@ PROPS = {
                         # the async configurations of S8 (completion must not depend on who collects first: asyncpair, asyncdouble, ...)
                         "pool": dict(fields=["pool-model", "builderr", "driver-exception"], oracles=["stage_serialised"])}),
     "C16": dict(suites={"parseq": dict(fields=["build", "reads", "writes", "setup", "accept", "driver-exception"],
-                                       oracles=["conflict_accepted", "compatible_rejected", "setup_reaches_every_leaf", "unexpected_panic",
+                                       oracles=["conflict_accepted", "compatible_rejected", "setup_reaches_every_leaf", "unexpected_panic", "access_union",
                                                 "once", "seq_order", "run_counts"])}),
     "C17": dict(suites={"meta": dict(fields=["outcome", "driver-exception"],
                                      oracles=["get_iff_registered", "own_vtable", "same_address", "bad_cast_only", "iter_borrow_discipline",
-                                              "iter_registered_present_in_first_registration_order", "iter_own_vtable", "iter_protocol"])}),
+                                              "iter_registered_present_in_first_registration_order", "iter_own_vtable", "iter_protocol", "iter_first_item"])}),
     "C18": dict(suites={"plan": dict(fields=["calls", "err", "errs", "driver-exception"], oracles=["errors_exact", "status:setup-panic", "status:run-panic"],
                                      gens=["malformed"])}),
     "C19": dict(nopar=True, suites={"plan": dict(meta=True, fields=LAYOUT + ["tl", "tlorder", "maxthr"], oracles=["meta_same_plan"])}),
